@@ -66,6 +66,9 @@ package interpreter
 //@ spec pulled(st, a) = sumMonBy(st.Senders, len(st.Senders), a)
 // the cache only grows: known cells keep their identity, new cells are freshly allocated
 //@ spec cacheGrew(st) = forallstr(a, c, (old(known(st, a, c)) ==> known(st, a, c) && st.CachedBalances[a][c] == old(st.CachedBalances[a][c])) && (known(st, a, c) && !old(known(st, a, c)) ==> fresh(ref(st.CachedBalances[a][c]))))
+// the per-account maps of the cache are the ones it had on entry or were allocated since
+//@ spec innerGrew(st) = forallstr(a, has(st.CachedBalances, a) ==> (old(has(st.CachedBalances, a)) && st.CachedBalances[a] == old(st.CachedBalances[a])) || fresh(ref(st.CachedBalances[a])))
+//@ spec cacheOwned(st) = ref(st.CachedBalances) > ref(st) && forallstr(a, has(st.CachedBalances, a) ==> ref(st.CachedBalances[a]) > ref(st)) && forallstr(a, c, known(st, a, c) ==> ref(st.CachedBalances[a][c]) > ref(st))
 //@ spec notCell(st, p) = forallstr(a, c, known(st, a, c) ==> st.CachedBalances[a][c] != p)
 
 //@ func (*programState).getCachedBalance
@@ -78,8 +81,10 @@ package interpreter
 //@   ensures [known-grows] {C10} forallstr(a, forallstr(c, old(known(s, a, c)) ==> known(s, a, c)))
 //@   ensures [known-only] {C10} forallstr(a, c, known(s, a, c) && !old(known(s, a, c)) ==> a == account && c == asset)
 //@   ensures [cache-ok] cacheOk(s)
+//@   ensures [inner-grew] {C11} innerGrew(s)
+//@   ensures [owned] {C11} old(cacheOwned(s)) ==> cacheOwned(s)
 //@   ensures [amounts-untouched] {C11} heapsame(bigint)
-//@   modifies entries(s.CachedBalances), allentries("map[string]*math/big.Int")
+//@   modifies entries(s.CachedBalances), innermapsof(s)
 
 //@ func (*programState).alreadySent
 //@   requires [state] st != nil && sendersOk(st)
@@ -122,7 +127,7 @@ package interpreter
 //@   ensures [cache-grew] {C10,C11} cacheGrew(s)
 //@   ensures [state-ok] stateOk(s)
 //@   ensures [amounts-untouched] {C11} heapsame(bigint)
-//@   modifies s.Senders, entries(s.CachedBalances), allentries("map[string]*math/big.Int")
+//@   modifies s.Senders, entries(s.CachedBalances), innermapsof(s)
 
 // The account leaf of a send-all draw: everything the account may still give,
 //   max(0, B + overdraft - P); @world and unbounded overdraft are rejected.
@@ -147,7 +152,7 @@ package interpreter
 //@   ensures [cache-grew] {C10,C11} cacheGrew(s)
 //@   ensures [state-ok] stateOk(s)
 //@   ensures [amounts-untouched] {C11} heapsame(bigint)
-//@   modifies s.Senders, entries(s.CachedBalances), allentries("map[string]*math/big.Int")
+//@   modifies s.Senders, entries(s.CachedBalances), innermapsof(s)
 
 // ---------------------------------------------------------------- sources: trees
 
@@ -202,7 +207,7 @@ package interpreter
 //@   ensures [cache-grew] {C10,C11} cacheGrew(s)
 //@   ensures [state-ok] stateOk(s)
 //@   ensures [amounts-untouched] {C11} heapsame(bigint)
-//@   modifies s.Senders, entries(s.CachedBalances), allentries("map[string]*math/big.Int")
+//@   modifies s.Senders, entries(s.CachedBalances), innermapsof(s)
 
 // Tries sending "amount" and returns what was actually sent (fresh, or the argument itself in the allotment case)
 //@ func (*programState).trySendingUpTo
@@ -217,7 +222,7 @@ package interpreter
 //@   ensures [cache-grew] {C10,C11} cacheGrew(s)
 //@   ensures [state-ok] stateOk(s)
 //@   ensures [amounts-untouched] {C11} heapsame(bigint)
-//@   modifies s.Senders, entries(s.CachedBalances), allentries("map[string]*math/big.Int")
+//@   modifies s.Senders, entries(s.CachedBalances), innermapsof(s)
 //@   loop 1
 //@     invariant [left] {C03,C04} val(totalLeft) + sumMon(s.Senders, len(s.Senders)) == val(amount) + old(sumMon(s.Senders, len(s.Senders)))
 //@     invariant [left-range] {C04} totalLeft != nil && fresh(ref(totalLeft)) && 0 <= val(totalLeft) && val(totalLeft) <= val(amount)
@@ -253,7 +258,7 @@ package interpreter
 //@   ensures [cache-grew] {C10,C11} cacheGrew(s)
 //@   ensures [state-ok] stateOk(s)
 //@   ensures [amounts-untouched] {C11} heapsame(bigint)
-//@   modifies s.Senders, entries(s.CachedBalances), allentries("map[string]*math/big.Int")
+//@   modifies s.Senders, entries(s.CachedBalances), innermapsof(s)
 //@   loop 1
 //@     invariant [sent] {C03,C04} totalSent != nil && fresh(ref(totalSent)) && val(totalSent) >= 0 && sumMon(s.Senders, len(s.Senders)) == old(sumMon(s.Senders, len(s.Senders))) + val(totalSent)
 //@     invariant [noalias] forall(j, 0, len(s.Senders), s.Senders[j].Monetary != totalSent) && notCell(s, totalSent)
@@ -347,7 +352,7 @@ package interpreter
 //@   ensures [other-assets] {C09} forallstr(a, c, c != st.CurrentAsset ==> bal(st, a, c) == old(bal(st, a, c)))
 //@   ensures [cache-ok] cacheOk(st)
 //@   ensures [cache-grew] {C10,C11} cacheGrew(st)
-//@   modifies cellsof(st), entries(st.CachedBalances), allentries("map[string]*math/big.Int"), elems(st.Senders), elems(st.Receivers)
+//@   modifies cellsof(st), entries(st.CachedBalances), innermapsof(st), elems(st.Senders), elems(st.Receivers)
 //@   loop 1
 //@     invariant [postings-ok] {C02} forall(k, 0, len(postings), postings[k].Amount != nil && val(postings[k].Amount) > 0 && postings[k].Asset == st.CurrentAsset && postings[k].Destination != KEPT_ADDR && allocated(ref(postings[k].Amount)))
 //@     invariant [amounts-apart] forall(k, 0, len(postings), notCell(st, postings[k].Amount))
@@ -381,7 +386,7 @@ package interpreter
 //@   ensures [error-no-postings] {C12} err != nil ==> len(result) == 0
 //@   ensures [cache-ok] cacheOk(st) && varsOk(st)
 //@   ensures [cache-grew] {C10,C11} cacheGrew(st)
-//@   modifies cellsof(st), entries(st.CachedBalances), allentries("map[string]*math/big.Int")
+//@   modifies cellsof(st), entries(st.CachedBalances), innermapsof(st)
 
 //@ func (*programState).runSendStatement
 //@   requires [wf] wf(statement)
@@ -399,7 +404,7 @@ package interpreter
 //@   ensures [error-no-postings] {C03,C12} err != nil ==> len(result) == 0
 //@   ensures [state-ok] varsOk(st) && cacheOk(st)
 //@   ensures [cache-grew] {C10,C11} cacheGrew(st)
-//@   modifies st.Senders, st.Receivers, st.CurrentAsset, cellsof(st), entries(st.CachedBalances), allentries("map[string]*math/big.Int"), allelems(Sender), allelems(Receiver)
+//@   modifies st.Senders, st.Receivers, st.CurrentAsset, cellsof(st), entries(st.CachedBalances), innermapsof(st), allelems(Sender), allelems(Receiver)
 
 // transaction / account metadata: later values override earlier ones key by key, other keys stay
 //@ spec metaOk(st) = st != nil && st.TxMeta != nil && st.TxMeta != st.ParsedVars && st.SetAccountsMeta != nil && forallstr(a, has(st.SetAccountsMeta, a) ==> st.SetAccountsMeta[a] != nil) && forallstr(a, b, has(st.SetAccountsMeta, a) && has(st.SetAccountsMeta, b) && a != b ==> st.SetAccountsMeta[a] != st.SetAccountsMeta[b])
@@ -443,7 +448,7 @@ package interpreter
 //@   ensures [error-no-postings] {C03,C12} err != nil ==> len(result) == 0
 //@   ensures [state-ok] varsOk(st) && cacheOk(st) && metaOk(st)
 //@   ensures [cache-grew] {C10,C11} cacheGrew(st)
-//@   modifies st.Senders, st.Receivers, st.CurrentAsset, cellsof(st), entries(st.CachedBalances), allentries("map[string]*math/big.Int"), allelems(Sender), allelems(Receiver), entries(st.TxMeta), entries(st.SetAccountsMeta), allentries("map[string]string")
+//@   modifies st.Senders, st.Receivers, st.CurrentAsset, cellsof(st), entries(st.CachedBalances), innermapsof(st), allelems(Sender), allelems(Receiver), entries(st.TxMeta), entries(st.SetAccountsMeta), allentries("map[string]string")
 
 // ---------------------------------------------------------------- balances requested up front
 
@@ -456,6 +461,7 @@ package interpreter
 //@   ensures [adds] {C10} account != "world" ==> pending(st, account, asset)
 //@   ensures [keeps] {C10} forallstr(a, c, old(pending(st, a, c)) ==> pending(st, a, c))
 //@   ensures [only] {C10} forallstr(a, c, pending(st, a, c) && !old(pending(st, a, c)) ==> a == account && c == asset && account != "world")
+//@   ensures [no-world-key] {C10} !old(has(st.CurrentBalanceQuery, "world")) ==> !has(st.CurrentBalanceQuery, "world")
 //@   ensures [state-ok] queryOk(st)
 //@   modifies entries(st.CurrentBalanceQuery)
 
@@ -503,18 +509,16 @@ package interpreter
 //@   ensures [asked-or-zero] err == nil ==> forallstr(a, c, has(query, a) && contains(query[a], c) && !(has(result, a) && has(result[a], c) && result[a][c] != nil) ==> storeBal(a, c) == 0)
 
 // everything the cache holds was allocated by this run (after the programState itself): the store never sees it
-// the per-account maps of the cache are the ones it had on entry or were allocated since
-//@ spec innerGrew(st) = forallstr(a, has(st.CachedBalances, a) ==> (old(has(st.CachedBalances, a)) && st.CachedBalances[a] == old(st.CachedBalances[a])) || fresh(ref(st.CachedBalances[a])))
-//@ spec cacheOwned(st) = ref(st.CachedBalances) > ref(st) && forallstr(a, has(st.CachedBalances, a) ==> ref(st.CachedBalances[a]) > ref(st)) && forallstr(a, c, known(st, a, c) ==> ref(st.CachedBalances[a][c]) > ref(st))
 
 //@ func (*programState).runBalancesQuery
 //@   external-below ref(st)
 //@   requires [state] queryOk(st) && cacheOk(st) && cacheOwned(st) && st.Store != nil && !has(st.CurrentBalanceQuery, "world")
-//@   ensures [nothing-forgotten] {C10,C11} cacheGrew(st) && heapsame(bigint)
+//@   ensures [nothing-forgotten] {C10,C11} cacheGrew(st) && heapsame(bigint) && innerGrew(st)
 //@   ensures [coherent] {C10} forallstr(a, c, known(st, a, c) && !old(known(st, a, c)) ==> val(st.CachedBalances[a][c]) == storeBal(a, c))
 //@   ensures [asks-superset-of-need] {C10} result == nil ==> forallstr(a, c, old(pending(st, a, c)) && !old(known(st, a, c)) ==> known(st, a, c) || storeBal(a, c) == 0)
 //@   ensures [error-leaves-view] {C12} result != nil ==> forallstr(a, c, known(st, a, c) == old(known(st, a, c)))
-//@   ensures [state-ok] queryOk(st) && cacheOk(st) && cacheOwned(st)
+//@   ensures [query-map] st.CurrentBalanceQuery == old(st.CurrentBalanceQuery) || fresh(ref(st.CurrentBalanceQuery))
+//@   ensures [state-ok] queryOk(st) && cacheOk(st) && cacheOwned(st) && !has(st.CurrentBalanceQuery, "world")
 //@   modifies st.CurrentBalanceQuery, entries(st.CachedBalances), innermapsof(st)
 //@   loop 1
 //@     invariant [filtered] {C10} forallstr(a, c, seen(a) && pending(st, a, c) && !known(st, a, c) ==> has(filteredQuery, a) && filteredQuery[a] == st.CurrentBalanceQuery[a])
@@ -536,6 +540,7 @@ package interpreter
 //@     invariant [cache-maps-distinct] cacheDistinct(st)
 //@     invariant [cache-cells-distinct] cellsDistinct(st)
 //@   loop 4
+//@     assert [step-head] forallstr(a, c, athead(known(st, a, c)) ==> known(st, a, c) && st.CachedBalances[a][c] == athead(st.CachedBalances[a][c])) && forallstr(a, c, known(st, a, c) && !athead(known(st, a, c)) ==> a == account && c == asset && !athead(allocated(ref(st.CachedBalances[a][c]))))
 //@     invariant [merged-others] {C10} forallstr(a, c, seenOuter(a) && a != account && has(balances, a) && has(balances[a], c) && balances[a][c] != nil ==> known(st, a, c))
 //@     invariant [current] has(balances, account) && balances[account] == accountBalances && has(st.CachedBalances, account) && st.CachedBalances[account] == cached
 //@     invariant [external] {C11} ref(balances) < ref(st) && forallstr(a, has(balances, a) ==> ref(balances[a]) < ref(st)) && ref(accountBalances) < ref(st) && ref(cached) > ref(st)
@@ -547,3 +552,97 @@ package interpreter
 //@     invariant [step-grew] forallstr(a, c, atouter(known(st, a, c)) ==> known(st, a, c) && st.CachedBalances[a][c] == atouter(st.CachedBalances[a][c])) && forallstr(a, c, known(st, a, c) && !atouter(known(st, a, c)) ==> a == account && atouter(allocated(ref(st))) && !atouter(allocated(ref(st.CachedBalances[a][c]))))
 //@     invariant [cache-maps-distinct] cacheDistinct(st)
 //@     invariant [cache-cells-distinct] cellsDistinct(st)
+
+// ---------------------------------------------------------------- variables and their origins
+
+//@ extern invoke:Store.GetAccountsMetadata(recv, ctx, query)
+//@   ensures [store-owned] external(ref(result)) && forallstr(a, has(result, a) ==> external(ref(result[a])))
+
+//@ func parseMonetary
+//@   ensures [typed-error] {C12} err != nil ==> typeis(err, InvalidMonetaryLiteral) || typeis(err, InvalidNumberLiteral)
+//@   modifies nothing
+
+//@ func ParsePortionSpecific
+//@   ensures [range] {C06,C13} err == nil ==> result != nil && 0 <= rat(result) && rat(result) <= 1 && fresh(ref(result))
+//@   ensures [typed-error] {C12} err != nil ==> typeis(err, BadPortionParsingErr) && result == nil
+//@   modifies nothing
+
+//@ func parseVar
+//@   ensures [value] {C12} err == nil ==> isValue(result) && (typeis(result, Portion) ==> 0 <= rat(as(result, Portion)) && rat(as(result, Portion)) <= 1)
+//@   ensures [typed] {C12,C17} err == nil ==> (type_ == "monetary" ==> typeis(result, Monetary)) && (type_ == "account" ==> typeis(result, AccountAddress)) && (type_ == "portion" ==> typeis(result, Portion)) && (type_ == "asset" ==> typeis(result, Asset)) && (type_ == "number" ==> typeis(result, MonetaryInt)) && (type_ == "string" ==> typeis(result, String))
+//@   ensures [real-account] {C02} err == nil && type_ == "account" ==> as(result, AccountAddress) == rawValue && rawValue != "" && rawValue != KEPT_ADDR
+//@   ensures [same-text] {C13} err == nil && (type_ == "asset" || type_ == "string" || type_ == "account") ==> (type_ == "asset" ==> as(result, Asset) == rawValue) && (type_ == "string" ==> as(result, String) == rawValue)
+//@   ensures [unknown-type] {C12,C17} type_ != "monetary" && type_ != "account" && type_ != "portion" && type_ != "asset" && type_ != "number" && type_ != "string" ==> typeis(err, InvalidTypeErr)
+//@   ensures [typed-error] {C12} err != nil ==> typeis(err, InvalidMonetaryLiteral) || typeis(err, InvalidNumberLiteral) || typeis(err, BadPortionParsingErr) || typeis(err, InvalidAccountName) || typeis(err, InvalidTypeErr)
+//@   modifies nothing
+
+//@ spec storeOk(st) = queryOk(st) && cacheOk(st) && cacheOwned(st) && st.Store != nil && !has(st.CurrentBalanceQuery, "world")
+//@ spec argsOk(args) = forall(i, 0, len(args), isValue(args[i]))
+
+//@ func meta
+//@   external-below ref(s)
+//@   requires [state] s != nil && s.Store != nil
+//@   requires [args] argsOk(args)
+//@   ensures [typed-error] {C12} err != nil ==> typeis(err, BadArityErr) || typeis(err, TypeError) || typeis(err, QueryMetadataError) || typeis(err, MetadataNotFound)
+//@   ensures [arity] {C12,C17} len(args) != 2 || !typeis(args[0], AccountAddress) || !typeis(args[1], String) ==> typeis(err, BadArityErr) || typeis(err, TypeError)
+//@   assert [not-found] {C12} err == nil ==> has(meta, *account) && has(meta[*account], *key) && result == meta[*account][*key]
+//@   assert [store-error-surfaces] {C12} fetchMetaErr != nil ==> typeis(err, QueryMetadataError) && as(err, QueryMetadataError).WrappedError == fetchMetaErr
+//@   modifies s.CachedAccountsMeta
+
+//@ func getBalance
+//@   external-below ref(s)
+//@   requires [state] storeOk(s)
+//@   ensures [store-error-surfaces] {C12} err != nil ==> typeis(err, QueryBalanceError) && result == nil
+//@   ensures [cell] {C10} err == nil ==> result != nil && known(s, account, asset) && s.CachedBalances[account][asset] == result
+//@   ensures [nothing-forgotten] {C10,C11} cacheGrew(s) && heapsame(bigint) && innerGrew(s)
+//@   ensures [query-map] s.CurrentBalanceQuery == old(s.CurrentBalanceQuery) || fresh(ref(s.CurrentBalanceQuery))
+//@   ensures [state-ok] queryOk(s) && cacheOk(s) && cacheOwned(s) && s.Store != nil && !has(s.CurrentBalanceQuery, "world")
+//@   modifies s.CurrentBalanceQuery, entries(s.CurrentBalanceQuery), entries(s.CachedBalances), innermapsof(s)
+
+//@ func balance
+//@   external-below ref(s)
+//@   requires [state] storeOk(s)
+//@   requires [args] argsOk(args)
+//@   ensures [typed-error] {C12} err != nil ==> result == nil && (typeis(err, BadArityErr) || typeis(err, TypeError) || typeis(err, QueryBalanceError) || typeis(err, NegativeBalanceError))
+//@   ensures [value] {C10,C12} err == nil ==> result != nil && val(result.Amount) >= 0 && result.Asset == as(args[1], Asset) && val(result.Amount) == bal(s, as(args[0], AccountAddress), as(args[1], Asset))
+//@   ensures [nothing-forgotten] {C10,C11} cacheGrew(s) && heapsame(bigint) && innerGrew(s)
+//@   ensures [query-map] s.CurrentBalanceQuery == old(s.CurrentBalanceQuery) || fresh(ref(s.CurrentBalanceQuery))
+//@   ensures [state-ok] queryOk(s) && cacheOk(s) && cacheOwned(s) && s.Store != nil && !has(s.CurrentBalanceQuery, "world")
+//@   modifies s.CurrentBalanceQuery, entries(s.CurrentBalanceQuery), entries(s.CachedBalances), innermapsof(s)
+
+//@ func overdraft
+//@   external-below ref(s)
+//@   requires [state] storeOk(s)
+//@   requires [args] argsOk(args)
+//@   ensures [flag-gates] {C11,C12} !s.OverdraftFunctionFeatureFlag ==> typeis(err, ExperimentalFeature)
+//@   ensures [typed-error] {C12} err != nil ==> result == nil && (typeis(err, ExperimentalFeature) || typeis(err, BadArityErr) || typeis(err, TypeError) || typeis(err, QueryBalanceError))
+//@   ensures [value] {C12} err == nil ==> result != nil && val(result.Amount) == max(0, 0 - bal(s, as(args[0], AccountAddress), as(args[1], Asset))) && result.Asset == as(args[1], Asset)
+//@   ensures [nothing-forgotten] {C10,C11} cacheGrew(s) && heapsame(bigint) && innerGrew(s)
+//@   ensures [query-map] s.CurrentBalanceQuery == old(s.CurrentBalanceQuery) || fresh(ref(s.CurrentBalanceQuery))
+//@   ensures [state-ok] queryOk(s) && cacheOk(s) && cacheOwned(s) && s.Store != nil && !has(s.CurrentBalanceQuery, "world")
+//@   modifies s.CurrentBalanceQuery, entries(s.CurrentBalanceQuery), entries(s.CachedBalances), innermapsof(s)
+
+//@ func (*programState).handleOrigin
+//@   external-below ref(s)
+//@   requires [wf] wf(fnCall)
+//@   requires [state] varsOk(s) && storeOk(s)
+//@   ensures [value] {C12} err == nil ==> isValue(result) && (typeis(result, Portion) ==> 0 <= rat(as(result, Portion)) && rat(as(result, Portion)) <= 1)
+//@   ensures [unknown-origin] {C12,C17} fnCall.Caller.Name != "meta" && fnCall.Caller.Name != "balance" && fnCall.Caller.Name != "overdraft" ==> err != nil
+//@   ensures [flag-gates] {C11} fnCall.Caller.Name == "overdraft" && !s.OverdraftFunctionFeatureFlag ==> err != nil
+//@   ensures [nothing-forgotten] {C10,C11} cacheGrew(s) && heapsame(bigint) && innerGrew(s)
+//@   ensures [query-map] s.CurrentBalanceQuery == old(s.CurrentBalanceQuery) || fresh(ref(s.CurrentBalanceQuery))
+//@   ensures [state-ok] varsOk(s) && queryOk(s) && cacheOk(s) && cacheOwned(s) && s.Store != nil && !has(s.CurrentBalanceQuery, "world")
+//@   modifies s.CachedAccountsMeta, s.CurrentBalanceQuery, entries(s.CurrentBalanceQuery), entries(s.CachedBalances), innermapsof(s)
+
+//@ func (*programState).parseVars
+//@   external-below ref(s)
+//@   requires [wf] wf(varDeclrs)
+//@   requires [state] varsOk(s) && storeOk(s) && s.ParsedVars != s.TxMeta
+//@   ensures [vars-ok] {C12,C17} err == nil ==> varsOk(s)
+//@   ensures [nothing-forgotten] {C10,C11} cacheGrew(s) && heapsame(bigint)
+//@   ensures [state-ok] queryOk(s) && cacheOk(s) && cacheOwned(s) && s.Store != nil && !has(s.CurrentBalanceQuery, "world")
+//@   modifies entries(s.ParsedVars), s.CachedAccountsMeta, s.CurrentBalanceQuery, entries(s.CurrentBalanceQuery), entries(s.CachedBalances), innermapsof(s)
+//@   loop 1
+//@     invariant [state] varsOk(s) && queryOk(s) && cacheOk(s) && cacheOwned(s) && s.Store != nil && !has(s.CurrentBalanceQuery, "world") && s.ParsedVars != s.TxMeta
+//@     invariant [nothing-forgotten] cacheGrew(s) && innerGrew(s)
+//@     invariant [query-map] s.CurrentBalanceQuery == old(s.CurrentBalanceQuery) || fresh(ref(s.CurrentBalanceQuery))
